@@ -33,6 +33,8 @@ type Operation struct {
 	Body struct {
 		GoTypeFn GoTypeRenderFunc
 		Type     Maybe[SchemaComponent]
+		// IsSlice - the body is an array defined in place (a plain Go slice)
+		IsSlice bool
 	}
 	BodyReader Maybe[string]
 
@@ -128,6 +130,9 @@ func NewOperation(s *specification.Operation, components Componenter, cfg Config
 						o.Body.Type = Just(sc)
 					default:
 						o.Body.GoTypeFn = body.RenderGoType
+						if _, ok := body.Type.(SliceType); ok && body.Ref == nil && !body.IsNullable() {
+							o.Body.IsSlice = true
+						}
 					}
 				}
 			} else if len(content.List) > 0 {
